@@ -470,6 +470,9 @@ func (w *World) call(ctx context.Context, a *actor, idx, sub int, op Op, inWtx b
 		} else {
 			w.Engine.Abort(t)
 		}
+	case "sleep":
+		// wall-clock pause (retention ages have second precision); outside the model
+		time.Sleep(time.Duration(op.N) * time.Millisecond)
 	case "close":
 		w.Engine.Close()
 	case "watch", "next", "trynext", "sclose":
